@@ -203,6 +203,68 @@ example : writeAware ⟨1, 1, 1, 0, 0, 0⟩ 60 = none := by decide
 theorem revision_examples : revisionOf (some "42".toList) = 42 ∧ revisionOf (some "-3".toList) = 0
     ∧ revisionOf (some "x".toList) = 0 ∧ revisionOf none = 0 ∧ revisionOf (some [] ) = 0 := by decide
 
+/-- the decimal digits of a number: never empty, never starting with a sign, all digits, worth the number -/
+theorem natStr_facts (n : Nat) : natStr n ≠ [] ∧ (natStr n).all isDig = true ∧ digitsVal (natStr n) = n
+    ∧ (natStr n).head? ≠ some '-' ∧ (natStr n).head? ≠ some '+' := by
+  have hdig : ∀ c ∈ natStr n, c.isDigit = true := by
+    intro c hc
+    unfold natStr at hc; rw [Nat.toList_repr] at hc
+    exact Nat.isDigit_of_mem_toDigits (b := 10) (by omega) (by omega) hc
+  have hne : natStr n ≠ [] := by
+    unfold natStr; rw [Nat.toList_repr]; exact Nat.toDigits_ne_nil
+  have hval : digitsVal (natStr n) = n := by
+    unfold digitsVal natStr
+    rw [Nat.toList_repr]
+    have := Nat.ofDigitChars_ten_toDigits (n := n)
+    rw [Nat.ofDigitChars_eq_foldl] at this
+    have e : (fun (acc : Nat) (d : Char) => acc * 10 + (d.toNat - '0'.toNat)) = fun sofar c => 10 * sofar + (c.toNat - '0'.toNat) := by
+      funext a c; rw [Nat.mul_comm]
+    rw [e]; exact this
+  have hall : (natStr n).all isDig = true := by
+    apply List.all_eq_true.2
+    intro c hc
+    have := hdig c hc
+    simp only [Char.isDigit, Bool.and_eq_true, decide_eq_true_eq] at this
+    unfold isDig
+    have a : '0'.val ≤ c.val := this.1
+    have b : c.val ≤ '9'.val := this.2
+    rw [UInt32.le_iff_toNat_le] at a b
+    have h0 : ('0' : Char).val.toNat = 48 := by decide
+    have h9 : ('9' : Char).val.toNat = 57 := by decide
+    simp only [Bool.and_eq_true, decide_eq_true_eq, Char.toNat]
+    omega
+  refine ⟨hne, hall, hval, ?_, ?_⟩
+  · intro h
+    cases hh : natStr n with
+    | nil => exact hne hh
+    | cons x xs =>
+      rw [hh] at h; simp only [List.head?_cons, Option.some.injEq] at h
+      have := hdig x (by rw [hh]; simp); rw [h] at this; revert this; decide
+  · intro h
+    cases hh : natStr n with
+    | nil => exact hne hh
+    | cons x xs =>
+      rw [hh] at h; simp only [List.head?_cons, Option.some.injEq] at h
+      have := hdig x (by rw [hh]; simp); rw [h] at this; revert this; decide
+
+/-- **revision**: every positive integer is accepted and read back as itself; every other integer is refused -/
+theorem revision_roundtrip (v : Int) :
+    (1 ≤ v → ∃ s, writeRevision v = some s ∧ (revisionOf (some s) : Int) = v) ∧ (v < 1 → writeRevision v = none) := by
+  constructor
+  · intro hv
+    have hnot : ¬ v < 1 := by omega
+    refine ⟨natStr v.toNat, by simp [writeRevision, hnot], ?_⟩
+    obtain ⟨hne, hall, hval, hm, hp⟩ := natStr_facts v.toNat
+    unfold revisionOf
+    simp only [hm, hp, false_or, if_false, hall, hval, Bool.and_true]
+    have : (natStr v.toNat).isEmpty = false := by
+      cases h : natStr v.toNat with
+      | nil => exact absurd h hne
+      | cons _ _ => rfl
+    simp only [this, Bool.not_false, if_true, decide_false, Bool.false_eq_true, if_false]
+    omega
+  · intro hv; simp [writeRevision, hv]
+
 example : (⟨2024, 2, 29, 23, 59, 59⟩ : DT).valid = true := by decide
 example : fmt ⟨7, 1, 2, 3, 4, 5⟩ = "0007-01-02T03:04:05Z".toList := by decide
 
